@@ -118,13 +118,34 @@ fn constant_rich() -> Vec<String> {
                         close.insert_str(0, c.1);
                     }
                     let e = format!("{}{}{}", open, leaf, close);
-                    if d % 4 == 3 {
+                    // the same nest inside an f-string hole (the hole is compiled on its own)
+                    if leaf == "x" && (ai == bi || d >= 24) {
                         v.push(format!("f'{{{}}}'", e));
+                        v.push(format!("size(f'{{{}}}')", e));
                     }
                     v.push(e);
                 }
             }
         }
+    }
+    // constants that only a folded call can produce (the literal -0.0 is PUSH 0.0; NEG)
+    for c in ["double('-0.0')", "double('-0')", "double('inf')", "double('-inf')", "double('nan')", "double('1e400')", "double('5e-324')", "double(-0)", "pow(-0.0 - 0.0, 3)", "sqrt(double('-0.0'))"] {
+        v.push(c.to_string());
+        v.push(format!("1.0 / {}", c));
+        v.push(format!("x / {}", c));
+        v.push(format!("[{}, x]", c));
+        v.push(format!("string({})", c));
+        v.push(format!("{{'k': {}}}", c));
+    }
+    // branches longer than a short jump distance can hold (127, 32767 and 65535 instructions):
+    // executed with the binding that takes the long jump and with the one that does not
+    for n in [200usize, 40_000, 70_000] {
+        let elems = vec!["y"; n].join(", ");
+        v.push(format!("x ? [{}][0] : 0", elems));
+        v.push(format!("x ? 0 : [{}][0]", elems));
+        v.push(format!("x || [{}][0]", elems));
+        v.push(format!("x && [{}][0]", elems));
+        v.push(format!("match x {{ case int: [{}][0], case _: 5 }}", elems));
     }
     v.sort();
     v.dedup();
@@ -387,7 +408,7 @@ pub fn run(t: Tier) -> i32 {
     let mut rep = Report::new(ID, t, "exploration");
     let sp = Space::new(t);
     rep.rule = format!(
-        "programs: {} programs = the C10 program set (C09's templates in every literal/variable mask, logic trees, matches, f-strings, macros, chains: every ByteCode variant and nested code blocks) plus {} constant-rich programs (every serialisable value variant with boundary payloads - int/uint extremes, +-0.0, +-inf, NaN, subnormal, strings with quotes/NUL/non-BMP, all 256 bytes, nested lists and maps, types, timestamps and durations at millisecond resolution incl. negative and extreme - and every error constant the folder produces, each alone, in a list, a map, a comparison, a macro, a ternary and a coalesce; folded maps of 2 and 12 keys under filter/map forms whose body fails with a different class on different keys; every alternation of two of 9 nesting constructs - calls, method calls, macros, lists, maps, parentheses, coalesce, ?:, match arms - at every depth 1..32 with a variable and with a constant at the bottom, every fourth depth also inside an f-string hole: as deep as the parser accepts) x {{serde_json, bincode}}: serialization and deserialization succeed, source and parameter set are equal, a second round trip has the same bytes, and original and round-tripped program give the same value or the same error kind under 5 bindings of their variables (1, 'a', true, 0, unbound); a program holding a map constant is read back 8 times from the same bytes (every reading builds a new map) and each reading is compared. Non-trivial = every compiled program; distinct by source",
+        "programs: {} programs = the C10 program set (C09's templates in every literal/variable mask, logic trees, matches, f-strings, macros, chains: every ByteCode variant and nested code blocks) plus {} constant-rich programs (every serialisable value variant with boundary payloads - int/uint extremes, +-0.0, +-inf, NaN, subnormal, strings with quotes/NUL/non-BMP, all 256 bytes, nested lists and maps, types, timestamps and durations at millisecond resolution incl. negative and extreme - and every error constant the folder produces, each alone, in a list, a map, a comparison, a macro, a ternary and a coalesce; folded maps of 2 and 12 keys under filter/map forms whose body fails with a different class on different keys; every alternation of two of 9 nesting constructs - calls, method calls, macros, lists, maps, parentheses, coalesce, ?:, match arms - at every depth 1..32 with a variable and with a constant at the bottom, every fourth depth also inside an f-string hole: as deep as the parser accepts; folded constants only a call can produce (double('-0.0'), infinities, NaN, a subnormal); branches of 200, 40000 and 70000 instructions under ?:, ||, && and match, run with the bindings that take and that skip the long jump) x {{serde_json, bincode}}: serialization and deserialization succeed, source and parameter set are equal, a second round trip has the same bytes, and original and round-tripped program give the same value or the same error kind under 5 bindings of their variables (1, 'a', true, 0, unbound); a program holding a map constant is read back 8 times from the same bytes (every reading builds a new map) and each reading is compared. Non-trivial = every compiled program; distinct by source",
         sp.srcs.len(),
         constant_rich().len()
     );
